@@ -169,7 +169,7 @@ class Gen:
             self.simple(ind)
             return
         kinds = ["simple", "simple", "if", "if", "if", "for", "for", "while", "try", "try", "with", "match",
-                 "closure", "class", "gen", "comp", "ifexp", "compvars", "compvars"]
+                 "closure", "class", "gen", "comp", "ifexp", "compvars", "compvars", "compraise"]
         kind = r.choice([k for k in kinds if self.allowed(k)] or ["simple"])
         self.used.add(kind)
         if kind == "simple":
@@ -308,6 +308,26 @@ class Gen:
                                          f"{tgt} = (lambda: {v})()", f"{v} += 1"]))
             if r.random() < 0.3:
                 self.emit(ind, f"{r.choice(INT_VARS)} = len({tgt}) if hasattr({tgt}, '__len__') else {tgt}")
+        elif kind == "compraise":
+            # an inlined comprehension (fresh, unbound loop variables) that may raise in the element expression,
+            # the condition or the iterable, inside try/except: the compiler's cleanup handler restores the
+            # shadowed variables and re-raises
+            self.uid += 1
+            u, w = f"e{self.uid}a", f"e{self.uid}b"
+            src = r.choice(["l", "range(3)", "(0, 1, 2)", "s", f"l[{self.atom()}]", "o"])
+            elem = r.choice([f"1 // {u}", f"l[{u}]", f"{{1: 2}}[{u}]", f"{u} + {self.atom()}", f"int({u})"])
+            condp = r.choice(["", "", f" if 1 // {u}", f" if l[{u}] > 0", f" if {u} < {self.atom()}"])
+            comp = r.choice([f"[{elem} for {u} in {src}{condp}]", f"{{{elem} for {u} in {src}{condp}}}",
+                             f"{{{u}: {elem} for {u} in {src}{condp}}}",
+                             f"[({u}, {w}) for {u} in {src} for {w} in range(1 // {u})]",
+                             f"[[{elem} for {u} in range({w})] for {w} in {src}]"])
+            tgt = r.choice(INT_VARS)
+            self.emit(ind, "try:")
+            self.emit(ind + 1, r.choice([f"{tgt} = len({comp})", f"{tgt} = {comp}", f"print({comp})"]))
+            self.emit(ind, f"except {r.choice(['ZeroDivisionError', '(ZeroDivisionError, IndexError)', 'LookupError', 'KeyError', 'Exception', 'TypeError'])}:")
+            self.emit(ind + 1, f"{r.choice(INT_VARS)} = {self.atom()}")
+            if r.random() < 0.4:
+                self.emit(ind, r.choice([f"{u} = 1", f"print({u})", f"del {u}"]))
         elif kind == "ifexp":
             self.emit(ind, f"{r.choice(INT_VARS)} = {self.atom()} if {self.cond(1)} else {self.iexpr(1)}")
 
@@ -506,7 +526,56 @@ def make_op(kind, val, mode):
 
 OPKINDS = ("opstr", "opstrsw", "opbytes")
 
-NUMS = [0, 1, 2, 3, -1, 5, 10, 2**53 + 1, -(2**53) - 1, 0.5, -0.0, 1e308, "nan", "inf", "-inf", True]
+class PeekStream:
+    """One-shot iterator with a NON-consuming membership test (a look-ahead token stream)."""
+
+    def __init__(self, items):
+        self.items, self.pos = list(items), 0
+
+    def __iter__(self):
+        return self
+
+    def __next__(self):
+        if self.pos >= len(self.items):
+            raise StopIteration
+        self.pos += 1
+        return self.items[self.pos - 1]
+
+    def __contains__(self, x):
+        Adv.LOG.append("PeekStream.__contains__")
+        return any(x == y for y in self.items[self.pos:])
+
+
+class EatStream(PeekStream):
+    """One-shot iterator whose membership test consumes the elements it looks at."""
+
+    def __contains__(self, x):
+        Adv.LOG.append("EatStream.__contains__")
+        for y in self:
+            if y == x:
+                return True
+        return False
+
+
+class AttrObj:
+    """Keeps attributes under another name; reading has effects the subject does not trigger by storing."""
+
+    def __setattr__(self, name, value):
+        Adv.LOG.append("AttrObj.__setattr__")
+        object.__setattr__(self, "_kept_" + name, value)
+
+    def __getattr__(self, name):
+        Adv.LOG.append("AttrObj.__getattr__")
+        raise AttributeError(name)
+
+    def __eq__(self, other):
+        return self is other
+
+    __hash__ = object.__hash__
+
+
+NUMS = [0, 1, 2, 3, -1, 5, 10, 2**53 + 1, -(2**53) - 1, 0.5, -0.0, 1e308, "nan", "inf", "-inf", True,
+        0.1, 0.2, 0.3, 1e-12, 5e-324, -1e-300, 0.30000000000000004]
 STRS = ["", "a", "ab", "abc", "A1", " ", "7", "b" * 12, "ß", "Ab c"]
 
 
@@ -516,11 +585,11 @@ def gen_num(rng):
 
 def gen_input(rng) -> dict:
     r = rng
-    lk = r.choice(["list", "list", "list", "tuple", "iter", "gen", "empty"])
+    lk = r.choice(["list", "list", "list", "tuple", "iter", "gen", "empty", "peek"])
     ln = 0 if lk == "empty" else r.choice([0, 1, 2, 3, 4])
     items = [r.choice([0, 1, 2, 3, -1, 5, 2**53 + 1, "nan", 1.5]) for _ in range(ln)]
     ok = r.choice(["none", "int", "adv", "adv", "advfull", "advfull", "str", "lstr", "nan", "list", "iter", "big", "tuple", "bytes", "set",
-                   "opstr", "opstr", "opstrsw", "opbytes"])
+                   "opstr", "opstr", "opstrsw", "opbytes", "peek", "peek", "attrobj"])
     o = {"k": ok}
     if ok in ("adv", "advfull"):
         o["mode"] = r.choice(["plain", "plain", "raise", "notimpl", "nonbool"])
@@ -532,7 +601,7 @@ def gen_input(rng) -> dict:
     elif ok in OPKINDS:
         o["v"] = r.choice(STRS[:8])
         o["mode"] = r.choice(["plain", "raise"])
-    elif ok in ("list", "iter", "tuple", "set"):
+    elif ok in ("list", "iter", "tuple", "set", "peek", "eat"):
         o["v"] = [r.choice([0, 1, 2, 3]) for _ in range(r.choice([0, 1, 3]))]
     sk = r.choice(["str", "str", "str", "str", "bytes", "lstr", "opstr", "opstr", "opstrsw", "opbytes"])
     sv = {"k": sk, "v": r.choice(STRS[:8] if sk in OPKINDS else STRS)}
@@ -569,6 +638,9 @@ def materialise(spec: dict):
     elif lk == "iter":
         l = iter(items)
         iters.append(l)
+    elif lk in ("peek", "eat"):
+        l = (PeekStream if lk == "peek" else EatStream)(items)
+        iters.append(l)
     else:
         l = (v for v in items)
         iters.append(l)
@@ -601,6 +673,11 @@ def materialise(spec: dict):
     elif k == "iter":
         o = iter(list(os_["v"]))
         iters.append(o)
+    elif k in ("peek", "eat"):
+        o = (PeekStream if k == "peek" else EatStream)(os_["v"])
+        iters.append(o)
+    elif k == "attrobj":
+        o = AttrObj()
     else:
         o = 10**400
     return (a, b, s, l, o), iters
@@ -608,6 +685,28 @@ def materialise(spec: dict):
 
 # Hand-written seeds: shapes that broke the unrepaired code (kept in corpus/C01.json too).
 SEED_PROGRAMS = [
+    # membership tests on one-shot iterators that define their own __contains__; raising comprehensions;
+    # attribute stores on an object that keeps them elsewhere
+    PRELUDE + '''def f(a, b, s, l, o):
+    z = 0
+    if a in l:
+        z += 1
+    if b not in o:
+        z += 2
+    try:
+        z += len([1 // q for q in (2, 1, 0)])
+    except ZeroDivisionError:
+        z += 4
+    try:
+        y = {q: l[q] for q in range(5) if 1 // (q + 1)}
+    except (TypeError, IndexError):
+        z += 8
+    try:
+        o.attr = z
+    except AttributeError:
+        z += 16
+    return z
+''',
     # seeding: the startswith/endswith pattern matched in its plain form (all metric subsets, incl. none and
     # LINE only); operands may be str/bytes subclasses overloading + and the string methods
     PRELUDE + '''def f(a, b, s, l, o):
